@@ -143,6 +143,64 @@ theorem ear_clipping_inside_convex (pts : Array (V2 K)) (out : Array (Nat × Nat
   exact closedTri_left _ _ _ _ _ p hS hin (hl _ (List.mem_range.mp a)) (hl _ (List.mem_range.mp b))
     (hl _ (List.mem_range.mp c))
 
+/-! ## repeated consecutive vertices are rejected (exact arithmetic) -/
+
+/-- every directed edge of the cycle is an edge of exactly the triangle that consumes it: in particular of *some* emitted
+triangle `(a, b, c)`, as `a → b`, `b → c` or `c → a` -/
+theorem ClipSeq.edge_covered {cyc : List Nat} {ts : List (Nat × Nat × Nat)} (h : ClipSeq cyc ts) :
+    ∀ x ∈ polyEdges cyc, ∃ t ∈ ts, x = (t.1, t.2.1) ∨ x = (t.2.1, t.2.2) ∨ x = (t.2.2, t.1) := by
+  induction h with
+  | @last cyc k i w u h =>
+    intro x hx
+    have hx' : x ∈ polyEdges [i, w, u] := by rw [← h, polyEdges_rotate, List.mem_rotate]; exact hx
+    have hE : polyEdges [i, w, u] = [(i, w), (w, u), (u, i)] := by simp [polyEdges]
+    rw [hE] at hx'
+    simp only [List.mem_cons, List.not_mem_nil, or_false] at hx'
+    exact ⟨(u, i, w), by simp, by tauto⟩
+  | @step cyc k e w u mid ts hrot hrest ih =>
+    intro x hx
+    have hx' : x ∈ polyEdges (e :: w :: (mid ++ [u])) := by rw [← hrot, polyEdges_rotate, List.mem_rotate]; exact hx
+    have hne : (w :: (mid ++ [u])) ≠ [] := by simp
+    have hold := polyEdges_cons e (w :: (mid ++ [u])) hne
+    have hnew := polyEdges_eq_path (w :: (mid ++ [u])) hne
+    have hlast : (w :: (mid ++ [u])).getLast hne = u := by simp
+    simp only [List.head_cons] at hold hnew
+    rw [hlast] at hold hnew
+    rw [hold] at hx'
+    simp only [List.mem_cons, List.mem_append, List.not_mem_nil, or_false] at hx'
+    rcases hx' with rfl | hx' | rfl
+    · exact ⟨(u, e, w), by simp, Or.inr (Or.inl rfl)⟩
+    · obtain ⟨t, ht, hh⟩ := ih x (by rw [hnew]; simp [hx'])
+      exact ⟨t, List.mem_cons_of_mem _ ht, hh⟩
+    · exact ⟨(u, e, w), by simp, Or.inl rfl⟩
+
+/-- **C16, rejection of repeated consecutive vertices — exact arithmetic.**  If two cyclically consecutive input vertices
+coincide, `triangulate_ear_clipping` returns `None`: the edge between them would have to be an edge of an emitted
+triangle, which would then have zero area, but every emitted triangle is strictly counter-clockwise.  (At `f64` the same
+input is rejected through the NaN guard, `triangulate_none_of_nan`.) -/
+theorem ear_clipping_rejects_repeated_vertex (pts : Array (V2 K)) (i : Nat) (hi : i < pts.size) :
+    letI := fieldNum K sq
+    pt pts i = pt pts ((i + 1) % pts.size) → triangulateEarClipping pts = none := by
+  intro heq
+  cases hr : @triangulateEarClipping K (fieldNum K sq) pts with
+  | none => rfl
+  | some out =>
+    exfalso
+    obtain ⟨h3, hseq, hccw⟩ := @triangulate_clipseq K (fieldNum K sq) pts out hr
+    have hmem : (i, (i + 1) % pts.size) ∈ polyEdges (List.range pts.size) := by
+      rw [polyEdges_eq_zip_rotate]
+      refine List.mem_iff_getElem.mpr ⟨i, by simp; omega, ?_⟩
+      simp [List.getElem_rotate]
+    obtain ⟨t, ht, hh⟩ := hseq.edge_covered _ hmem
+    have hpos := ((corner_direction_spec sq _ _ _).1).mp (hccw t ht)
+    rcases hh with hh | hh | hh <;> simp only [Prod.mk.injEq] at hh <;> obtain ⟨h1, h2⟩ := hh
+    · rw [← h1, ← h2, ← heq] at hpos
+      simp only [area2] at hpos; ring_nf at hpos; exact lt_irrefl _ hpos
+    · rw [← h1, ← h2, ← heq] at hpos
+      simp only [area2] at hpos; ring_nf at hpos; exact lt_irrefl _ hpos
+    · rw [← h1, ← h2, ← heq] at hpos
+      simp only [area2] at hpos; ring_nf at hpos; exact lt_irrefl _ hpos
+
 /-- non-vacuity: the centre of the unit square is strictly left of all four edges -/
 example : StrictlyLeftOfAll (K := ℚ) (@pt ℚ (fieldNum ℚ id) #[⟨0,0⟩, ⟨1,0⟩, ⟨1,1⟩, ⟨0,1⟩]) (List.range 4) ⟨1/2, 1/2⟩ := by
   intro e he
